@@ -15,7 +15,7 @@ from .runner import Violation
 ID = "C01"
 RULE = ("plan = initial frames (constructor plans incl. scalars, length-1 values, 0 columns, 0 rows, mismatching lengths, 2-D "
         "arrays) + a history of ≤ 25 steps (≤ 60 thorough) interpreted over a growing pool of frames: item/attribute "
-        "assignment with len(v) in {scalar, 1, nrow, other}, del item/attribute, pop, popitem, colnames assignment (fresh, "
+        "assignment, setdefault and |= with len(v) in {scalar, 1, nrow, other}, del item/attribute, pop, popitem, colnames assignment (fresh, "
         "permuted, clashing names), every transforming method with shape-valid arguments (filter, slice, head, tail, drop_na, "
         "sample, unique, sort, select, unselect, rename, modify scalar/vector/callable/grouped, cbind, rbind, update, five joins, "
         "group_by+aggregate, count, copy, deepcopy), converters there-and-back (ListOfDicts, JSON, pandas, Arrow) and readers on "
@@ -29,7 +29,7 @@ CASES = {"quick": 1200, "thorough": 6000}
 
 KINDS = ["f", "i", "b", "s", "u", "d", "t", "td", "o", "ob"]
 NAMES = gen.NAMES_PLAIN + gen.NAMES_CLASH + gen.NAMES_NONID[:3]
-INPLACE = ["setitem", "setitem", "setattr", "delitem", "delattr", "pop", "popitem", "colnames"]
+INPLACE = ["setitem", "setitem", "setattr", "setdefault", "ior", "delitem", "delattr", "pop", "popitem", "colnames"]
 TRANSFORM = ["filter", "slice", "head", "tail", "drop_na", "sample", "unique", "sort", "select", "unselect", "rename",
              "modify", "modify_callable", "modify_grouped", "cbind", "rbind", "update", "left_join", "inner_join", "semi_join",
              "anti_join", "full_join", "aggregate", "count", "copy", "deepcopy"]
@@ -73,7 +73,7 @@ def _plan(draw, max_steps):
         op = draw(st.sampled_from({"inplace": INPLACE, "transform": TRANSFORM, "convert": CONVERT}[group]))
         s = {"op": op, "i": draw(st.integers(0, 20)), "j": draw(st.integers(0, 20)), "a": draw(st.integers(0, 9)),
              "name": draw(st.sampled_from(NAMES))}
-        if op in ("setitem", "setattr", "modify"):
+        if op in ("setitem", "setattr", "setdefault", "ior", "modify"):
             s["value"] = draw(_value(draw(st.integers(0, 6))))
         if op == "colnames":
             s["how"] = draw(st.sampled_from(["fresh", "permute", "clash", "partial", "shorter"]))
@@ -238,8 +238,10 @@ def _check(plan, ctx):
         pick = (lambda k=0: names[(s["a"] + k) % len(names)]) if names else None
         result = None
         rmodel = Model(None)
-        if op in ("setitem", "setattr"):
+        if op in ("setitem", "setattr", "setdefault", "ior"):
             name = s["name"]
+            if op == "setdefault" and s["a"] % 3 == 0 and names:
+                name = pick()                      # a name that exists: nothing may change, whatever the default's length
             if op == "setattr" and (not name.isidentifier() or name in BUILTIN or name in ("colnames", "_group_colnames")):
                 ctx.excl("setattr on a non-identifier / method name")
                 continue
@@ -249,11 +251,28 @@ def _check(plan, ctx):
             legal = ln in ("scalar", 1, n) if names else ln != "twod"
             if ln in ("scalar", 1) and names and n == 0:
                 legal = None                      # broadcasting into a 0-row frame may raise or give 0 rows
+            if op == "setdefault" and name in names:
+                got = ctx.call(where, lambda: data.setdefault(name, val))
+                if got is not dict.__getitem__(data, name) or build.snap_frame(data) != snap:
+                    raise Violation(f"{where}: setdefault on an existing name changed the frame or returned something else")
+                ctx.cls("setdefault_existing")
+                invariant(data, model, where)
+                continue
             try:
                 if op == "setitem":
                     data[name] = val
+                elif op == "setdefault":
+                    got = data.setdefault(name, val)
+                    if got is not dict.__getitem__(data, name):
+                        raise Violation(f"{where}: setdefault did not return the stored column", type=str(type(got)))
+                elif op == "ior":
+                    import operator
+                    if operator.ior(data, {name: val}) is not data:
+                        raise Violation(f"{where}: |= did not update in place")
                 else:
                     setattr(data, name, val)
+            except Violation:
+                raise
             except Exception as e:
                 if legal:
                     raise Violation(f"{where}: assignment of a value of matching length raised", length=ln, nrow=n,
@@ -429,10 +448,11 @@ def _transform(op, x, y, s, names, n):
     if op == "modify_grouped":
         if n == 0:
             raise _Skip()
-        if a % 3 == 0 and n >= 2:
+        if a % 2 == 0 and n >= 2:
             # the group-wise function hands back a *column* of a foreign length (twice the group / the whole outer
             # column): any other length mismatch must be rejected, never stored misaligned
-            bad = (lambda d: d[first].concat(d[first])) if a % 2 else (lambda d: x[first])
+            twice = (a // 2) % 2
+            bad = (lambda d: d[first].concat(d[first])) if twice else (lambda d: x[first])
             try:
                 out = x.group_by(first).modify(bad=bad)
             except Exception:
@@ -440,7 +460,7 @@ def _transform(op, x, y, s, names, n):
                 raise _Skip()
             x._group_colnames = ()
             groups = len(set(map(repr, build.cells(x[first]))))
-            if a % 2 or groups > 1:
+            if twice or groups > 1:
                 raise Violation("grouped modify stored a group-wise result whose length differs from its group",
                                 nrow=n, groups=groups, stored=len(dict.__getitem__(out, "bad")))
             return out, None
